@@ -22,18 +22,18 @@ theorem measure_poll (f : Fut) : ∀ c : Ctx, MS (poll f c) ≤ w f + envU c.env
     simpa [poll, w] using this
   | timeout d e ih =>
     intro c
-    simp only [poll, Timeout.poll]
+    simp only [poll]
     have ihe := ih { c with nextId := c.nextId + 1 }
     rcases hpe : poll e { c with nextId := c.nextId + 1 } with ⟨re, c1⟩
     rw [hpe] at ihe
     simp only [MS] at ihe ⊢
     cases re with
     | none =>
-      simp only [if_true, wO, obs_env, obs_ops, emit_env, emit_cnt, cnt_nil, sleep_drop_cnt] at ihe ⊢
+      simp only [timeoutStep, Timeout.poll, if_true, wO, obs_env, obs_ops, emit_env, emit_cnt, cnt_nil, sleep_drop_cnt] at ihe ⊢
       simp only [w, Sleep.u]
       omega
     | some e' =>
-      simp only at ihe ⊢
+      simp only [timeoutStep, Timeout.poll] at ihe ⊢
       have h1 := @sleep_poll_ready_ops { id := c.nextId, deadline := c.now + d } c1.tid c1.now
       have h2 := @sleep_poll_pending_u { id := c.nextId, deadline := c.now + d } c1.tid c1.now
       rcases hps : Sleep.poll { id := c.nextId, deadline := c.now + d } c1.tid c1.now with ⟨s', ops, r⟩
@@ -51,18 +51,18 @@ theorem measure_poll (f : Fut) : ∀ c : Ctx, MS (poll f c) ≤ w f + envU c.env
         omega
   | timeoutRun s e ih =>
     intro c
-    simp only [poll, Timeout.poll]
+    simp only [poll]
     have ihe := ih c
     rcases hpe : poll e c with ⟨re, c1⟩
     rw [hpe] at ihe
     simp only [MS] at ihe ⊢
     cases re with
     | none =>
-      simp only [if_true, wO, obs_env, obs_ops, emit_env, emit_cnt, cnt_nil, sleep_drop_cnt] at ihe ⊢
+      simp only [timeoutStep, Timeout.poll, if_true, wO, obs_env, obs_ops, emit_env, emit_cnt, cnt_nil, sleep_drop_cnt] at ihe ⊢
       simp only [w, Nat.add_zero]
       omega
     | some e' =>
-      simp only at ihe ⊢
+      simp only [timeoutStep, Timeout.poll] at ihe ⊢
       have h1 := @sleep_poll_ready_ops s c1.tid c1.now
       have h2 := @sleep_poll_pending_u s c1.tid c1.now
       rcases hps : Sleep.poll s c1.tid c1.now with ⟨s', ops, r⟩
